@@ -140,6 +140,9 @@ func (i *IPv4) UnmarshalBinary(data []byte) error {
 	copy(i.NWDst, data[n:n+4])
 	n += 4
 
+	if int(i.IHL)*4 < n || int(i.IHL)*4 > len(data) {
+		return errors.New("The IPv4 header length is shorter than 20 bytes or longer than the []byte.")
+	}
 	err := i.Options.UnmarshalBinary(data[n:int(i.IHL*4)])
 	if err != nil {
 		return err
